@@ -466,3 +466,60 @@ def ddmin(items, fails, max_tests=400):
                 break
             n = min(len(items), n * 2)
     return items
+
+
+# ---------------------------------------------------------------------------------------------- equal-hash words (libstdc++, 64 bit)
+# std::hash<std::u8string_view> of libstdc++ is _Hash_bytes (a Murmur variant whose per-block mixing is a bijection), so two different
+# 16-byte words with the same hash code are obtained by choosing the first 8 bytes of the second word freely and solving for its last 8.
+# The probes that use such pairs check with the real std::hash that the codes are equal (another standard library: the pairs are just words).
+_M64 = (1 << 64) - 1
+_MUL = ((0xc6a4a793 << 32) + 0x5bd1e995) & _M64
+_SEED = 0xc70f6907
+_INV_MUL = pow(_MUL, -1, 1 << 64)
+
+
+def _smix(v):
+    return v ^ (v >> 47)
+
+
+def _block(k):
+    return (_smix((k * _MUL) & _M64) * _MUL) & _M64
+
+
+def _unblock(d):
+    # inverse of _block: d = smix(k*mul)*mul  ->  smix(k*mul) = d*inv ; smix is an involution on 64 bits (v ^ v>>47, 47 >= 32)
+    return (_smix((d * _INV_MUL) & _M64) * _INV_MUL) & _M64
+
+
+def std_hash_model(w):
+    n = len(w)
+    h = _SEED ^ ((n * _MUL) & _M64)
+    i = 0
+    while i + 8 <= n:
+        h = ((h ^ _block(int.from_bytes(w[i:i + 8], 'little'))) * _MUL) & _M64
+        i += 8
+    if n & 7:
+        h = ((h ^ int.from_bytes(w[i:], 'little')) * _MUL) & _M64
+    h = (_smix(h) * _MUL) & _M64
+    return _smix(h)
+
+
+def equal_hash_partner(word16, first8):
+    """The 16-byte word starting with `first8` that has the std::hash code of `word16`."""
+    assert len(word16) == 16 and len(first8) == 8
+    h0 = _SEED ^ ((16 * _MUL) & _M64)
+    target = (((h0 ^ _block(int.from_bytes(word16[:8], 'little'))) * _MUL) & _M64) ^ _block(int.from_bytes(word16[8:], 'little'))
+    after_first = ((h0 ^ _block(int.from_bytes(first8, 'little'))) * _MUL) & _M64
+    k2 = _unblock(target ^ after_first)
+    return first8 + k2.to_bytes(8, 'little')
+
+
+def equal_hash_pairs(rng, n):
+    """n pairs (A, B) of different 16-byte words with std_hash_model(A) == std_hash_model(B)."""
+    out = []
+    while len(out) < n:
+        a = bytes(rng.choice(b'abcdefghijklmnopqrstuvwxyz_0123456789') for _ in range(16))
+        b = equal_hash_partner(a, bytes(rng.choice(b'abcdefghijklmnopqrstuvwxyz') for _ in range(8)))
+        if b != a and std_hash_model(a) == std_hash_model(b):
+            out.append((a, b))
+    return out
